@@ -93,6 +93,7 @@ func runC01(c *Check) {
 	c.Doc("C01-R4", "CT: dataHashForEmptyTxs = sha256(0x00) (leaf hash of the empty Data encoding).")
 	c.Doc("C01-R5", "EO+VP: the signed payload derives from the header committed; no store into header.Header after signing; sign < validate < final save.")
 	c.Doc("C01-R6", "VP: State.NextState sets LastBlockHeight/LastBlockTime from the header and AppHash from the execution result; the executed transactions are the block's.")
+	c.Doc("C01-R9", "BO: the production step calls the execution and sequencing layers with the loop's context, with no deadline of its own (the saved block is retried unchanged: a deadline an honest but slow answer exceeds would fail every retry).")
 	c.Doc("C01-R7", "EO: between taking a batch and the early save, the timestamp-not-before-last-header check is passed on every path.")
 
 	steps := productionStep(c, p)
@@ -110,6 +111,26 @@ func runC01(c *Check) {
 		isSign := IsCall(signerM("Sign"))
 		isBatch := IsCall(seqM("GetNextBatch"))
 		isBroadcast := func(n *Node) bool { return strings.HasSuffix(CallName(n), ").WriteToStoreAndBroadcast") }
+		// R9: the step retries the block it has saved, unchanged, until it commits. A deadline of
+		// the step's own on the call into the execution layer (or the sequencing layer) turns an
+		// honest but slow answer into an error that repeats on every retry and after every restart:
+		// the node can neither commit the block nor drop it. The only deadline is the loop's context.
+		for _, nd := range g.Select(IsCall(execM("ExecuteTxs"), execM("InitChain"), execM("SetFinal"), seqM("GetNextBatch"))) {
+			cc := CallCommonOf(nd)
+			if cc == nil || len(cc.Args) == 0 {
+				continue
+			}
+			ct := TermOf(cc.Args[0], nd.Ctx)
+			cn := CallName(nd)
+			inst := fnShort(step) + " ⟂ " + cn[strings.LastIndex(cn, ".")+1:] + " called without a deadline of the step's own"
+			if p.DeepContains(ct, func(t *Term) bool {
+				return t.IsCall("context.WithTimeout") || t.IsCall("context.WithDeadline") || t.IsCall("context.WithTimeoutCause") || t.IsCall("context.WithDeadlineCause")
+			}, 1) {
+				c.Bad("C01-R9", inst, fn, p.InstrPos(nd.In), "the call is made under a deadline set inside the production step ("+trunc(ct.String(), 80)+"): a well-formed answer that takes longer fails the step, and since the saved block is retried unchanged it fails on every attempt and after every restart — the node stops producing blocks although the layer behaves correctly", nil)
+			} else {
+				c.OK("C01-R9", inst, fn, p.InstrPos(nd.In), "the context handed on is the loop's own", true)
+			}
+		}
 		var finals, early []*Node
 		for _, s := range g.Select(isSave) {
 			if g.PathAvoiding([]*Node{g.Entry}, nodeSet([]*Node{s}), isSign) == nil {
